@@ -151,6 +151,20 @@ def run(ck):
                     ck.count('optcombo_' + o)
                     if o not in ('usage', 'diag', 'report'):
                         viol.append(dict(kind='option-combination', argv=argv, observed='%s %s' % (o, det)))
+    # 1d. runs whose *numerical* part fails (singular matrix of doubled conductors, an overflowing sweep, a frequency
+    # at the bottom of the float range), each also with the timing option: the diagnostic, whatever else was asked to be printed
+    kfail = [['-f', '7', '-w', '4,0,0,0,1,0,0,0.001', '-w', '4,0,0,0,1,0,0,0.001', '--excitation-pulse=1'],
+             ['-f', '7', '-w', '4,0,0,0,0,0,10,.01', '--excitation-pulse=2', '--frequency-increment=1e200', '--frequency-steps=2'],
+             ['-f', '1e-300', '-w', '4,0,0,0,0,0,10,.01', '--excitation-pulse=2']]
+    for kf in kfail:
+        for extra in ([], ['-T'], ['--timing'], ['-T', '--option=far-field', '--option=far-field-absolute', '--ff-distance=10']):
+            argv = kf + extra
+            o, det = fuzzcmd.outcome(argv, limit=60)
+            ncell += 1
+            ck.case(('kernel-failure', tuple(argv)), True)
+            ck.count('kernelfail_' + o)
+            if o not in ('usage', 'diag', 'report', 'timeout'):
+                viol.append(dict(kind='kernel-failure', argv=argv, observed='%s %s' % (o, det)))
     ck.stats['table_cells'] = ncell
     ck.cov['exhaustive'] = True
     # 2. fuzzing stream
